@@ -29,6 +29,9 @@ def _confirm(mod, viol):
 
 def _replay_case(mod, case):
     if isinstance(case, dict) and "__job__" in case:
+        import logging
+
+        logging.getLogger("aioswitcher").setLevel(logging.DEBUG if core.khash(core.jsonable(case["__job__"])) % 2 else logging.WARNING)
         try:
             r = mod.run_job(case["__job__"])
         except core.HarnessError:
